@@ -242,6 +242,31 @@ func VerifWriteRecord(c *Conn, typ uint8, data []byte) error {
 	return err
 }
 
+// VerifWriteEmptyRecord writes ONE record of the given content type whose fragment is
+// empty (writeRecordLocked never does: it loops while data is left), protected like any
+// other record of the connection.  Zero-length application_data fragments are legal
+// (RFC 8446, Section 5.1; RFC 5246, Section 6.2.1) and some stacks send them.
+func VerifWriteEmptyRecord(c *Conn, typ uint8) error {
+	c.out.Lock()
+	defer c.out.Unlock()
+	outBuf := make([]byte, recordHeaderLen, 128)
+	outBuf[0] = typ
+	vers := c.vers
+	if vers == 0 {
+		vers = VersionTLS10
+	} else if vers == VersionTLS13 {
+		vers = VersionTLS12
+	}
+	outBuf[1] = byte(vers >> 8)
+	outBuf[2] = byte(vers)
+	outBuf, err := c.out.encrypt(outBuf, nil, c.config.rand())
+	if err != nil {
+		return err
+	}
+	_, err = c.write(outBuf)
+	return err
+}
+
 // verifKA is embedded in ecdheKeyAgreement: the curve a plan forces on the TLS <= 1.2
 // server key exchange.
 type verifKA struct{ force CurveID }
